@@ -296,7 +296,7 @@ func ValidateFlowControlConfiguration(schema *proxyv1alpha1.FlowControlSchemaCon
 	}
 	if schema.GlobalMaxRequestsInflight != nil {
 		if schema.GlobalMaxRequestsInflight.Max < 0 {
-			allErrs = append(allErrs, field.Invalid(fldPath.Child("globalMaxRequestsInflight").Child("max"), schema.MaxRequestsInflight.Max, "must be bigger than or equal to 0"))
+			allErrs = append(allErrs, field.Invalid(fldPath.Child("globalMaxRequestsInflight").Child("max"), schema.GlobalMaxRequestsInflight.Max, "must be bigger than or equal to 0"))
 		}
 		if schema.MaxRequestsInflight == nil {
 			allErrs = append(allErrs, field.Required(fldPath.Child("maxRequestsInflight"), "required if globalMaxRequestsInflight is specified"))
